@@ -290,6 +290,21 @@ Theorem C01_T01e_read_line : forall fuel d k,
 Proof. exact (ReaderFacts.read_line_err_from_reader EncodingFacts.decode_utf8_lossy_spec). Qed.
 Print Assumptions C01_T01e_read_line.
 
+(* the one index of Decoder::read_line, read_buf[len - 2] in the UTF-16BE arm,
+   is in bounds whenever it is evaluated (read_buf ends with b'\n' there), and
+   the loop that assembles a line from several read_until calls neither panics
+   nor runs out of rounds: every round that goes on has consumed a byte *)
+Theorem C01_read_line_index_in_bounds : forall buf : bytes,
+  ends_with_lf buf = true -> exists b, nth_error buf (length buf - 2) = Some b.
+Proof. exact ReaderFacts.idx2_some. Qed.
+Print Assumptions C01_read_line_index_in_bounds.
+
+Theorem C01_read_line_loop_total : forall n fuel e c buf,
+  (ReaderFacts.cmsr c < fuel)%nat -> (ReaderFacts.cmsr c < n)%nat ->
+  ReaderFacts.io_ok (read_line_loop n fuel e c buf).
+Proof. exact ReaderFacts.read_line_loop_ok. Qed.
+Print Assumptions C01_read_line_loop_total.
+
 (* hence: a faultless reader always gets the list of lines (no Err, no panic,
    fuel sufficient), for every byte string and every chunking *)
 Theorem C01_faultless_reader_never_fails : forall b s,
